@@ -44,19 +44,23 @@ PROPS.update({
                 'blocking and tokio are the same model function (identical sequences by construction; by correspondence on both implementations)'],
         modelled=NET_MODELLED, assumptions=NET_ASSUME),
     'C06': dict(gens=['consts'], coq_targets=['Props/C06.vo'], coqchk_modules=['Props.C06'], group='net', harness='c06', axioms_allowed=[],
-        proved=['write_all over any acceptance script: bytes on the transport are always a prefix of the frame; success means exactly the whole frame; a fair script (no failure, >= |frame| ready turns) always completes; successive writes give the concatenation of the frames in call order; the unit written is one complete frame for the mode'],
-        modelled=NET_MODELLED, assumptions=['std Write::write_all / tokio write_all_buf loop semantics (retry on Interrupted / Pending) are modelled by write_all and validated by correspondence']),
+        proved=['write_all over any acceptance script: bytes on the transport are always a prefix of the frame; success means exactly the whole frame; a fair script (no failure, >= |frame| ready turns) always completes; successive writes give the concatenation of the frames in call order; the unit written is one complete frame for the mode',
+                'conversations: what the write() calls of any conversation put on the wire is their frames, whole and in call order (conv_writes); on tokio, under every schedule of dropped read() futures and caller writes, a write() first completes an outstanding keep-alive reply and then sends its frame, so the wire carries whole frames only (aconv_ok) and caller frames leave in call order (aconv_user_frames)'],
+        modelled=NET_MODELLED + ['conversations: the caller\'s write() / handshake() calls interleaved with its reads are part of the model (Net/Framed.v conv for both connections; Net/Async.v aconv for tokio with read() futures dropped at any pending poll; write() = finish the outstanding reply, then write_all of the frame, polled to completion) and are tied by differential runs of the same conversations on the real connections (harness/src/conv.rs); dropping a write() future is outside the property and the model', 'the fields of both Framed structs and of Codec are REGENERATED (Gen/NetConsts.v) and state_tied = true is a pinned theorem: a new field is state the models lack', 'the WebSocket adaptor under back-pressure is exercised for real (loopback peer with 4 KB socket buffers that does not read until a write stalls), not modelled'], assumptions=['std Write::write_all / tokio write_all_buf loop semantics (retry on Interrupted / Pending) are modelled by write_all and validated by correspondence']),
     'C07': dict(gens=['consts'], coq_targets=['Props/C07.vo'], coqchk_modules=['Props.C07'], group='net', harness='c07', axioms_allowed=[],
         proved=['per decoded packet the outgoing trace is [pong; packet], [packet] or a version rejection: at most one reply, written before the packet is returned',
                 'a reply is written iff the packet is a keep-alive (and not rejected by the gate)',
                 'whole histories under every segmentation: the interleaved write/return trace is the concatenation of the per-frame traces (corollary of the C05 induction)',
-                'the reply is the TINY_NONE frame of the mode ([1,3,0,0] / [4,3,0,0])'],
-        modelled=NET_MODELLED + ['Packet::maybe_pong is tied by correspondence over every (sub-type, reqi) TINY value and every kind; its source shape is pinned by the translator (gen_maybe_pong_pinned, informational)'],
+                'the reply is the TINY_NONE frame of the mode ([1,3,0,0] / [4,3,0,0])',
+                'conversations: the caller\'s writes (handshake included) do not change what the reads do - the reads of a conversation are the session of that many reads (conv_reads); on tokio under dropped futures and caller writes a keep-alive is returned only after its whole reply is on the wire and reply bytes are written for nothing else (aconv_ok)',
+                'the models\' state is exactly the fields of the connection structs (state_tied, regenerated field names)'],
+        modelled=NET_MODELLED + ['conversations: the caller\'s write() / handshake() calls interleaved with its reads are part of the model (Net/Framed.v conv for both connections; Net/Async.v aconv for tokio with read() futures dropped at any pending poll; write() = finish the outstanding reply, then write_all of the frame, polled to completion) and are tied by differential runs of the same conversations on the real connections (harness/src/conv.rs); dropping a write() future is outside the property and the model', 'the fields of both Framed structs and of Codec are REGENERATED (Gen/NetConsts.v) and state_tied = true is a pinned theorem: a new field is state the models lack', 'what counts as a keep-alive is decided from the frame bytes in the harness oracle (type 3, request id 0, sub-type 0), independently of the decoder', 'Packet::maybe_pong is tied by correspondence over every (sub-type, reqi) TINY value and every kind; its source shape is pinned by the translator (gen_maybe_pong_pinned, informational)'],
         assumptions=NET_ASSUME),
     'C09': dict(gens=['consts'], coq_targets=['Props/C09.vo'], coqchk_modules=['Props.C09'], group='net', harness='c09', axioms_allowed=[],
         proved=['a decoded packet is rejected iff verification is on, it is a version packet and its version differs from VERSION; the error carries the value',
-                'otherwise it is delivered; VERSION regenerated from lib.rs is 9; position in a history is irrelevant (per-frame expectation inside the C05 session theorem)'],
-        modelled=NET_MODELLED + ['Packet::maybe_verify_version tied by correspondence over all 256 values x on/off x both connections'],
+                'otherwise it is delivered; VERSION regenerated from lib.rs is 9; position in a history is irrelevant (per-frame expectation inside the C05 session theorem)',
+                'conversations: caller writes - in particular a handshake() whose ISI asks for another InSim version - do not change the gate (conv_reads); the models\' state is exactly the fields of the connection structs (state_tied)'],
+        modelled=NET_MODELLED + ['conversations: the caller\'s write() / handshake() calls interleaved with its reads are part of the model (Net/Framed.v conv for both connections; Net/Async.v aconv for tokio with read() futures dropped at any pending poll; write() = finish the outstanding reply, then write_all of the frame, polled to completion) and are tied by differential runs of the same conversations on the real connections (harness/src/conv.rs); dropping a write() future is outside the property and the model', 'the fields of both Framed structs and of Codec are REGENERATED (Gen/NetConsts.v) and state_tied = true is a pinned theorem: a new field is state the models lack', 'IS_VER frames with every plain version text up to the full 8 bytes of the field are classified from their bytes in the harness oracle', 'Packet::maybe_verify_version tied by correspondence over all 256 values x on/off x both connections'],
         assumptions=NET_ASSUME + ['which connect_* arm applies Builder::verify_version is not covered here (relay arms need a network peer); see DESIGN.md C09']),
 })
 LEVEL_TEXT.update({
@@ -81,8 +85,9 @@ PROPS.update({
     'C03': dict(gens=['vehicle', 'track', 'consts', 'packets'], coq_targets=['Props/C03.vo'], coqchk_modules=['Props.C03'], group='wire', harness='c03', axioms_allowed=[],
         proved=['every successful encoding, any value, both modes: complete frame for the mode, length multiple of 4 (generic length theorem T1 + decidable per-layout size conditions checked on all 73 generated layouts), exact size byte, type byte = kind',
                 'too large for the mode => refused (Panic), never emitted; encode_length Ok n implies n*mul = len, n < 256',
-                'in-domain packets: own output decodes completely to the same packet; a packet decoded from an encoder-produced frame never aborts the encoder'],
-        modelled=WIRE_MODELLED, assumptions=['count byte = number of elements and decoded-from-arbitrary-frames never aborts are checked on the implementation (every count 0..255, generated dirty frames), proved only for in-domain values (c03_decoded_never_aborts_partial)']),
+                'in-domain packets: own output decodes completely to the same packet; a packet decoded from an encoder-produced frame never aborts the encoder',
+                'the codec of the source keeps no state between calls, like the model (a pure function of the size mode): Codec has the mode as its only field (regenerated, state_tied)'],
+        modelled=WIRE_MODELLED + ['every encode / decode of a run goes through ONE long-lived Codec per size mode, and sequences of encodable and refused packets of every kind on one codec are compared call by call with a fresh codec'], assumptions=['count byte = number of elements and decoded-from-arbitrary-frames never aborts are checked on the implementation (every count 0..255, generated dirty frames), proved only for in-domain values (c03_decoded_never_aborts_partial)']),
     'C04': dict(gens=['vehicle', 'track', 'consts', 'packets'], coq_targets=['Props/C04.vo'], coqchk_modules=['Props.C04'], group='wire', harness='c04', axioms_allowed=[],
         proved=['for every byte buffer and both modes the decoder never panics (generic totality theorem T6 over all generated layouts + customs + Mso + framing)',
                 'outcome classification: need-more / exactly the announced frame removed (4 <= n <= limit, n <= buffer) / framing error only for impossible lengths',
@@ -150,8 +155,10 @@ PROPS.update({
     'C18': dict(gens=['vehicle', 'track', 'consts', 'packets', 'builder'], coq_targets=['Props/C18.vo'], coqchk_modules=['Props.C18'], group='wire', extra_groups=['net'], harness='c18', axioms_allowed=[],
         proved=['for ALL setter sequences (induction over the call list): every ISI field is the last value set or its documented default; UDP port only for UDP and 0 without a local address; every flag bit is decided by the last call touching it; a flag setter changes exactly its bit; mode / protocol = last set or default',
                 'the ten flag setters regenerated from builder.rs each own one distinct bit = the IsiFlags constant of the same name; isi() has the pinned source shape; version = VERSION',
-                'the ISI as a model packet: in the wire domain its frame in the configured mode decodes back to exactly that ISI and is one well-formed frame (C01/C03 instantiated)'],
-        modelled=['Builder is hand-modelled as a record with one function per setter (Builder/Builder.v), tied by correspondence on every short call sequence and random long ones; flag setters, IsiFlags constants, defaults and DEFAULT_INAME are REGENERATED from the source',
+                'the ISI as a model packet: in the wire domain its frame in the configured mode decodes back to exactly that ISI and is one well-formed frame (C01/C03 instantiated)',
+                'every setter of the source assigns exactly the fields the model\'s setter changes (regenerated footprints, footprints_tied): relay() touches the protocol only, the size mode is written by mode() alone'],
+        modelled=['handshake() on both connections is part of the conversation model (a write of the ISI frame: Net/Framed.v conv) and runs in conversations with ISI versions 0/8/9/10 and request ids 0/1/3/200 on the real blocking and tokio Framed',
+                  'Builder is hand-modelled as a record with one function per setter (Builder/Builder.v), tied by correspondence on every short call sequence and random long ones; flag setters, IsiFlags constants, defaults and DEFAULT_INAME are REGENERATED from the source',
                   'connect_blocking / connect_async are exercised for real against loopback TCP / UDP peers (not modelled): the peer must receive exactly the ISI frame and nothing else; the relay arms need a network peer and are not exercised'],
         assumptions=['socket setup (bind/connect/timeouts) is the OS\'s; isi() totality is checked under catch_unwind on every explored configuration']),
 })
@@ -214,8 +221,10 @@ PROPS.update({
         proved=['for every packet layer, list of complete frames, EVERY distribution of the byte stream over binary messages (one/several/split frames, any message size), any interleaving of non-binary and empty binary messages and every slice-size sequence: one result per frame in order, then Disconnected (composition of the adaptor invariant with the C05 session induction; unbounded)',
                 'this is literally the TCP session of the same stream under any TCP segmentation (c20_equals_tcp); removing the non-binary messages changes nothing (c20_non_binary_ignored)',
                 'closure: the adaptor reports end of stream and a read that has no complete frame returns Disconnected; the adaptor never loses/duplicates/reorders a byte for any slice sizes',
-                'a write hands the whole frame over as one binary message and reports it fully written (write_all finishes at once)'],
-        modelled=NET_MODELLED + ADAPTOR_MODELLED + ['tungstenite (WebSocket framing, masking, fragmentation, automatic pong, close handshake) and TLS are not modelled: a message is an item of the adaptor\'s input; they run for real in the correspondence (loopback tokio-tungstenite server)'],
+                'a write hands the whole frame over as one binary message and reports it fully written (write_all finishes at once)',
+                'under dropped read() futures and caller writes in between, on a transport that takes a whole buffer or nothing (WebsocketStream::poll_write): every burst of reply bytes is the whole reply frame and every write() sends the whole outstanding reply or nothing and then its own frame - a message never carries part of a frame or two frames (aconv_messages_whole)'],
+        modelled=NET_MODELLED + ADAPTOR_MODELLED + ['cancelled conversations with caller writes (Net/Async.v aconv) are run on the real tokio Framed over a scripted message transport whose accepted write calls are recorded one by one; back-pressure on the real adaptor (loopback peer with 4 KB socket buffers that does not read until a write stalls) is exercised, not modelled',
+                                                    'tungstenite (WebSocket framing, masking, fragmentation, automatic pong, close handshake) and TLS are not modelled: a message is an item of the adaptor\'s input; they run for real in the correspondence (loopback tokio-tungstenite server)'],
         assumptions=NET_ASSUME + ['closure = WebSocket close handshake (or an already-closed stream): tokio-tungstenite then ends the message stream; a TCP connection dropped WITHOUT a close handshake surfaces as an I/O error (observed, recorded in the evidence notes), which the property text does not cover',
                                   'connect_to_lfsworld_relay_ws dials the constant relay address and cannot run offline; the adaptor is attached to a loopback server through the public From<WebSocketStream<MaybeTlsStream<TcpStream>>>']),
 })
@@ -229,7 +238,9 @@ PROPS.update({
         proved=['cancel_safe: for every packet layer, mode, transport script (any segmentation, transient errors, not-ready turns on both halves) and EVERY choice of pending polls at which the future is dropped, any number of times, the session - results, order, outgoing bytes between results - equals the uninterrupted session (induction over the poll sequence; unbounded)',
                 'the reason, as a lemma: resuming a suspended future and polling a fresh one are the same step from every state a suspension can leave (invariant Inv, proved preserved by every pending poll): all progress is committed to the connection inside one poll',
                 'outgoing side under any cancellation schedule: between two results exactly one whole keep-alive reply is written, before the keep-alive is returned, and nothing else; no result is returned while a reply is half written',
-                'the pre-repair design (reply + packet held by the future) is refuted: after one accepted byte the connection state no longer mentions the packet'],
+                'the pre-repair design (reply + packet held by the future) is refuted: after one accepted byte the connection state no longer mentions the packet',
+                'RESULTS in full generality (aconv_results, aconv_results_complete): for every readiness pattern of both transport halves, every schedule of dropped futures and every schedule of caller writes in between, the results returned are a prefix of - and after a final result equal to - those of the plain connection model (Net/Framed.v session, the model of C05/C07/C09) on the same bytes, preceded by the keep-alive held back behind its reply',
+                'with caller writes: without writes a conversation is the session above (aconv_no_writes); with writes no partial frame is ever left on the outgoing side and the keep-alive whose reply a write() completed is still the next result (aconv_ok); the model\'s state is exactly the fields of the tokio Framed struct (state_tied)'],
         modelled=NET_MODELLED + ['the tokio Framed::read future is hand-modelled as a small-step function poll_from : pc -> state -> scripts -> (Pending pc | Ready result) (Net/Async.v): state that survives a drop = receive buffer + pending reply + its packet; dropping = forgetting pc',
                                  'tied to the real future by polling it by hand (futures_util::poll!) on a scripted AsyncRead/AsyncWrite under a paused-clock runtime and dropping it at chosen pending polls: the trace of every such run is compared with the model\'s, and with the uninterrupted run of the real code'],
         assumptions=NET_ASSUME + ['the tokio runtime itself (timer wheel, wakers, select! fairness) is not modelled; a dropped read restarts the 90 s timeout (time is not modelled)',
